@@ -43,7 +43,7 @@ REFUSALS = ("UnexpectedToken", "UnexpectedCharacters", "UnexpectedInput", "Unexp
 
 TIERS = {
     "quick": dict(n_pred=1800, n_advan=330, n_param=400, chunk=4000),
-    "thorough": dict(n_pred=60000, n_advan=None, n_param=6000, chunk=8000),
+    "thorough": dict(n_pred=40000, n_advan=None, n_param=4000, chunk=8000),
 }
 
 
@@ -182,6 +182,8 @@ def _import_pharmpy():
 
     core.use_repo()
     import pharmpy.modeling  # noqa: F401
+    import pharmpy.model.external.nonmem  # noqa: F401  (the plugin is otherwise imported lazily, once per forked child)
+    import pharmpy.model.external.nonmem.model  # noqa: F401
     import pharmpy.internals.parse.ignored as ig
 
     if not hasattr(ig.version, "cache_info"):
